@@ -9,7 +9,7 @@ at end of input the message must say so.
 """
 import re
 
-from ..core import runner, e1, snapshot
+from ..core import runner, e1, snapshot, clone
 from ..model import refparse, reflex
 from ..spaces import tokens as T, sentences as S
 
@@ -133,7 +133,7 @@ def cached_message(res, v):
         return
     if _cached[0] is None:
         e1.get_real()
-        p = copy.deepcopy(e1._template)
+        p = clone.pristine(e1._template)
         p.parse_cache = {}
         _cached[0] = realmod.Real(p)
     r = _cached[0].parse(v.text)
